@@ -134,6 +134,39 @@ theorem bad_dim_rejected (s0 s1 : Step TObj) (r : Pipeline TObj) (t : TObj) (v :
 
 end Gwcs.Pipe
 
+namespace Gwcs.BBox
+
+variable {α : Type}
+
+/-- a tuple assigned through the WCS setter is reported back per axis exactly as given -/
+theorem toF_set_tuple (t : List (α × α)) : (setOBox (.tuple t)).toF = t := rfl
+
+/-- a box set on the astropy model with the tuple in astropy's own order (last input first) is read per axis in (x, y, …) order -/
+theorem toF_modelBox (t : List (α × α)) : (modelBox t.reverse).toF = t := by
+  simp [modelBox, OBox.toF]
+
+/-- **copying a box object between WCSs keeps every axis' interval**, whatever order the object stores them in -/
+theorem copy_preserves_axes (b : OBox α) : (setOBox (.obj b)).toF = b.toF := rfl
+
+/-- re-reading a 'C'-ordered box's own tuple as if it were (x, y, …) transposes the axes: the two readings differ as soon as the box is
+not symmetric under reversal (the mistake of flattening a box object with `bounding_box()` and validating it as 'F') -/
+theorem own_reading_transposes (b : OBox α) (hc : b.order = .C) (hasym : b.stored.reverse ≠ b.stored) :
+    (setOBox (.tuple b.own)).toF ≠ b.toF := by
+  simp only [setOBox, OBox.toF, OBox.own, hc]
+  exact fun h => hasym h.symm
+
+/-- evaluation uses the per-axis reading: two stored forms of the same per-axis box mask identically -/
+theorem mask_order_independent [LT α] [DecidableLT α] (f : List α → List α) (nout : Nat) (b1 b2 : OBox α) (h : b1.toF = b2.toF)
+    (wbb : Bool) (fill : α) (x : List α) :
+    evalMaskedO f nout (some b1) wbb fill x = evalMaskedO f nout (some b2) wbb fill x := by
+  simp [evalMaskedO, h]
+
+/-- changing only the order flag of a stored box (what an evaluation must never do) changes the per-axis reading of a non-symmetric box -/
+theorem flip_changes_reading (t : List (α × α)) (hasym : t.reverse ≠ t) : (⟨.C, t⟩ : OBox α).toF ≠ (⟨.F, t⟩ : OBox α).toF := by
+  simpa [OBox.toF] using hasym
+
+end Gwcs.BBox
+
 /-! Non-vacuity: a concrete box, a point on its edge (inside) and one just outside. -/
 example : ¬ Gwcs.BBox.Outside [((1 : Int), (5 : Int)), (2, 8)] [1, 8] := by
   apply Gwcs.BBox.nan_is_inside; intro i hb hx
